@@ -1536,7 +1536,14 @@ def convert_from_interleaved(args):
     for i in range(0, nargs // 2):
         arrays.append(args[2 * i])
         inputs.append(args[2 * i + 1])
-    symbol_map = get_symbol_map(inputs)
+    try:
+        # like numpy, an implicit output is ordered by the labels themselves,
+        # so hand out the symbols in label order rather than order of appearance
+        ordered = sorted({ix for term in inputs for ix in term if ix is not ...})
+    except TypeError:
+        # labels that can't be compared keep their order of appearance
+        ordered = ()
+    symbol_map = get_symbol_map((ordered, *inputs))
     eq = ",".join("".join(symbol_map[ix] for ix in term) for term in inputs)
     if nargs % 2 == 1:
         # has output specified
